@@ -184,6 +184,18 @@ theorem OKexc.upgrade {now : Int} {i : Nat} {a : Array α} (h : OKexc R now i a)
   · subst hji; exact hi x hx
   · exact (h j x hx).2 hji
 
+/-- a change of the state value cannot go unrecorded: two states of an object, both recording and both satisfying the
+    invariant, with different values, have different histories -/
+theorem RecOK.change_recorded {now now' : Int} {x x' : α} (ok : RecOK R now x) (ok' : RecOK R now' x')
+    (hr : R.recording x = true) (hr' : R.recording x' = true) (hv : R.val x ≠ R.val x') : R.hist x ≠ R.hist x' := by
+  intro he
+  obtain ⟨s, hs, hsv⟩ := ok.2 hr
+  obtain ⟨s', hs', hsv'⟩ := ok'.2 hr'
+  rw [he, hs'] at hs
+  injection hs with e
+  rw [← hsv, ← hsv', e] at hv
+  exact hv rfl
+
 theorem ArrAll.mono {β : Type} {P Q : β → Prop} {a : Array β} (h : ArrAll P a) (hpq : ∀ x, P x → Q x) : ArrAll Q a :=
   fun i x hx => hpq x (h i x hx)
 
